@@ -49,8 +49,10 @@ Inductive st :=
 | TContinue                   (* continue (in a loop body) *)
 | TBreak                      (* break (in a loop body) *)
 | TPure                       (* a statement that neither mentions the stream nor leaves the block (formatting, appending a line) *)
+| TForget (v : name)          (* such a statement assigns v: whatever was known of v and of its attributes v.x is forgotten *)
 | TRepeat (count : ex) (body : st)          (* for _ in range(count): body *)
 | TAppendPair (lst : name) (w1 w2 : ex)     (* x = C(stream.get_int(w1), stream.get_int(w2)); lst.append(x)   (C a plain record) *)
+| TAppendInt (lst : name) (w : ex)          (* lst.append(stream.get_int(w)) *)
 | TCall (v : name) (callee : name)          (* v = <callee class>(stream): handled by run1 below *)
 | TUnknown.                   (* a statement outside the fragment *)
 
@@ -115,6 +117,20 @@ Fixpoint evc (c : cd) (s : sst) : option bool :=
   | CTruthy e => match ev e s with Some x => Some (negb (x =? 0)) | None => None end
   end.
 
+(* v itself, or an attribute path below it: v followed by a dot *)
+Fixpoint names_var (v k : name) : bool :=
+  match v, k with
+  | [], [] => true
+  | [], c :: _ => N.eqb c 46
+  | x :: v', y :: k' => N.eqb x y && names_var v' k'
+  | _ :: _, [] => false
+  end.
+Fixpoint forget {A} (v : name) (m : list (name * A)) : list (name * A) :=
+  match m with
+  | [] => []
+  | (k, x) :: t => if names_var v k then forget v t else (k, x) :: forget v t
+  end.
+
 (* for _ in range(n): f *)
 Fixpoint iter_body (f : sst -> res) (n : nat) (s0 : sst) : res :=
   match n with
@@ -175,6 +191,7 @@ Fixpoint run (p : st) (s : sst) : res :=
   | TContinue => RCont s
   | TBreak => RBrk s
   | TPure => RFall s
+  | TForget v => RFall (mkS (s_rest s) (s_idx s) (forget v (s_ints s)) (forget v (s_mems s)))
   | TRepeat e body =>
       match ev e s with
       | Some z =>
@@ -190,6 +207,15 @@ Fixpoint run (p : st) (s : sst) : res :=
                            :: (lst ++ [46; 48]%N, Z.of_N (be_val (firstn (Z.to_nat a) (s_rest s)) 0)) :: s_ints s) (s_mems s))
           else RErr
       | _, _ => RErr
+      end
+  | TAppendInt lst w =>
+      match ev w s with
+      | Some z =>
+          if (0 <? z) && has (Z.to_nat z) (s_rest s)
+          then RFall (mkS (skipn (Z.to_nat z) (s_rest s)) (s_idx s + z)
+                          ((lst ++ [46; 48]%N, Z.of_N (be_val (firstn (Z.to_nat z) (s_rest s)) 0)) :: s_ints s) (s_mems s))
+          else RErr
+      | None => RErr
       end
   | TCall _ _ => RErr
   | TUnknown => RErr
@@ -221,6 +247,7 @@ Fixpoint uses_idx (p : st) : bool :=
   | TIf c th el => uses_idx_c c || uses_idx th || uses_idx el
   | TRepeat e b => uses_idx_e e || uses_idx b
   | TAppendPair _ a b => uses_idx_e a || uses_idx_e b
+  | TAppendInt _ w => uses_idx_e w
   | _ => false
   end.
 
